@@ -25,6 +25,7 @@ from .srcmodel import unparse, norm
 from . import cfg as cfgmod
 
 NOCONST = object()
+TOUCHED = set()      # qualnames of the functions interpreted (traced or inlined) since the last reset - used by the thorough sweep
 
 
 def clone(node):
@@ -171,6 +172,7 @@ class Tracer:
         if a.kwarg:
             p.env[a.kwarg.arg] = Val(ast.Name(id=a.kwarg.arg, ctx=ast.Load()), tags={'kwarg'})
         self._stack = [fi.qualname]
+        TOUCHED.add(fi.qualname)
         self._root_cls = fi.cls.name if fi.cls is not None else None
         Path.budget = [self.max_paths * 4]
         body = fi.node.body
@@ -1007,6 +1009,7 @@ class Tracer:
         saved_env = q.env
         q.env = env
         self._stack.append(t.qualname)
+        TOUCHED.add(t.qualname)
         q.events.append(Event('enter', callee=t.qualname, node=e, fn=fi.qualname, depth=depth, args=list(bound_args)))
         body = t.node.body if isinstance(t.node.body, list) else [ast.Return(value=t.node.body)]
         try:
